@@ -60,6 +60,7 @@ theorem countLoop_one_tail (T : Bytes) (hT : TokStart T) {tl : Bytes} (htl : Msg
     (recent : Option Bytes) (num k : Int) (ty : UInt8)
     (hskip : skipNextPrintedArg ((T ++ tl).length + 2) (T ++ tl) 0 recent true false = .ok ⟨some tl, k, ty⟩) :
     countLoop (f + 2) (some (T ++ tl)) recent num = .ok (num + k) := by
+  have hskip := skipNextPrintedArg_checkFuel hskip
   obtain ⟨hne0, _, h0, _, _, _, h47, _⟩ := hT
   have hhd : hd (T ++ tl) = hd T := hd_append_of_ne_nil _ _ hne0
   have hpos : 0 < T.length := List.length_pos_iff.mpr hne0
